@@ -673,6 +673,8 @@ func runC01(cases string, res *Result) {
 	strictDiffs, strictRuns, fresh := 0, 0, 0
 	c01ManyNames(res)
 	c01HeldResults(res)
+	c01PoliciesOfTheirOwn(res)
+	c01BodiesThatFailHalfway(res)
 	readCases(cases, func(c Case) {
 		if c.str("k") == "probes" {
 			runC01Probes(c, res, dir)
